@@ -406,9 +406,25 @@ def b_repr(ip, v):
     return OPAQUE_STR
 
 
+BA2BYTES = {}
+
+
+def ba2bytes_fn(arr_sort):
+    k = str(arr_sort)
+    if k not in BA2BYTES:
+        BA2BYTES[k] = z3.Function('ba2bytes', arr_sort, IntSort, BytesSort)
+    return BA2BYTES[k]
+
+
 def b_bytes(ip, v=b'', *a):
     if isinstance(v, (bytes, bytearray)):
         return bytes(v)
+    if isinstance(v, SymSeq) and v.tag == 'bytearray':
+        # bytes(bytearray): a bytes value of the same length whose j-th byte is the j-th element
+        # (the element-wise link is applied by S.byte_at / getitem on the result: see ops.ba_source)
+        t = ba2bytes_fn(v.arr.sort())(v.arr, v.n)
+        ip.ctx.assume(z3.Length(t) == v.n)
+        return Sym(t, 'bytes')
     if isinstance(v, Sym) and v.ty == 'bytes':
         return Sym(v.t, 'bytes')
     if isinstance(v, PyList):
@@ -424,8 +440,13 @@ def b_bytes(ip, v=b'', *a):
 
 
 def b_bytearray(ip, v=b''):
-    # bytearray is modelled as an immutable bytes value held in a mutable cell
-    return ByteArray(b_bytes(ip, v))
+    """bytearray: a symbolic list of ints 0..255 (array + length), tagged"""
+    b = b_bytes(ip, v)
+    t = ops.term(b)
+    j = z3.Int('j!ba')
+    n = ops.bytes_len(b) if not isinstance(b, bytes) else len(b)
+    arr = z3.Lambda([j], z3.BV2Int(t[j]))
+    return SymSeq(arr, ops.term(n, 'int'), Kind('int'), None, 'bytearray')
 
 
 class ByteArray:
@@ -640,6 +661,11 @@ def getitem(ip, v, k):
         i = ops.norm_index(ops.term(k, 'int'), n, ctx)
         ctx.raise_if(ops.sbool(z3.Or(i < 0, i >= n)), 'IndexError')
         el = ip.wrap(z3.Select(v.arr, i), v.elem)
+        if v.tag == 'bytearray' and isinstance(el, Sym):
+            el = Sym(z3.simplify(el.t), 'int')
+            if ops._bv_arg(el.t) is None:
+                ip.ctx.assume(z3.And(el.t >= 0, el.t <= 255))
+                ops.declare_bounds(el.t, 0, 255)
         if v.facts is not None:
             v.facts.on_read(ip, v, i, el)
         return el
@@ -705,6 +731,9 @@ def setitem(ip, v, k, val):
         n = v.n
         i = ops.norm_index(ops.term(k, 'int'), n, ctx)
         ctx.raise_if(ops.sbool(z3.Or(i < 0, i >= n)), 'IndexError')
+        if v.tag == 'bytearray':
+            xt = ops.term(val, 'int')
+            ctx.raise_if(ops.sbool(z3.Or(xt < 0, xt > 255)), 'ValueError', 'byte must be in range(0, 256)')
         v.arr = z3.Store(v.arr, i, ip.unwrap(val, v.elem))
         return
     if isinstance(v, ByteArray):
@@ -857,7 +886,7 @@ def value_attr(ip, v, name):
     t = ops.pytype(v)
     table = {'list': LIST_METHODS, 'dict': DICT_METHODS, 'bytes': BYTES_METHODS, 'str': STR_METHODS,
              'set': SET_METHODS, 'int': INT_METHODS, 'bool': INT_METHODS, 'real': FLOAT_METHODS, 'tuple': TUPLE_METHODS}.get(t)
-    if isinstance(v, ByteArray):
+    if isinstance(v, SymSeq) and v.tag == 'bytearray':
         table = BYTEARRAY_METHODS
     if isinstance(v, (Closure, FuncVal)):
         attrs = v.attrs if isinstance(v, Closure) else getattr(v.info, 'fn_attrs', {})
@@ -1226,7 +1255,11 @@ STR_METHODS['join'] = m_str_join
 
 
 def m_ba_decode(ip, ba, enc='utf-8', errors='strict'):
-    return m_bytes_decode(ip, ba.val, enc, errors)
+    used(ip, 'bytearray.decode: some string (uninterpreted), may raise UnicodeDecodeError')
+    if ip.ctx.choose(2) == 1:
+        ip.ctx.raise_exc('UnicodeDecodeError')
+    f = z3.Function('ba_utf8dec', ba.arr.sort(), IntSort, StrSort)
+    return Sym(f(ba.arr, ba.n), 'str')
 
 
 BYTEARRAY_METHODS = {'decode': m_ba_decode}
